@@ -12,7 +12,8 @@ PROP = dict(
     kinds={
         1: ("trace-mismatch", "the mutating system calls the real binary issued on the repository (strace) are not the op list of Model/Commit.v (commit_ops), or not a prefix of it after SIGKILL", False),
         2: ("old-or-new-violated", "after SIGKILL during COMMIT a table that existed before is neither complete-old nor complete-new (decidable checker Commit.old_or_new on the directory found), outside the known remove->rename window", True),
-        3: ("state-mismatch", "the directory found after the run differs from the model's file-system state after the same calls (Fs.run)", True),
+        3: ("state-mismatch", "the directory found after the run differs from the model's file-system state after the same calls (Fs.run)", False),
+        5: ("not-recoverable", "every pre-existing table is complete (old or new) after the kill, yet with the hidden control files deleted csvq cannot SELECT from one of them", True),
         4: ("hypothesis-failed", "the state COMMIT started from does not satisfy commit_ready, or a call of the model's list is not enabled (harness/model error)", False),
         6: ("remove-rename-window", "killed between unlinkat(table) and renameat(temp, table): the table file does not exist, its complete new contents are only in the hidden temp file", True),
     },
